@@ -679,6 +679,35 @@ pub fn record_cross(out: &mut Out, tier: &str, seed: u64) {
             cross_event(out, "v5", &e, &v5_to_json(&p));
         }
     }
+    // CONNECTs larger than the other family could ever send (a size bound in front of the family check must not
+    // replace the identification)
+    {
+        use std::sync::Arc;
+        let mut c5 = v5::Connect::new(Arc::new("c".to_string()), 10);
+        c5.properties.user_properties = (0..6)
+            .map(|i| v5::UserProperty { name: Arc::new(format!("k{i}")), value: Arc::new("v".repeat(60000)) })
+            .collect();
+        let p5 = v5::Packet::Connect(c5);
+        if let Some(e) = enc::<V5>(&p5).1 {
+            cross_event(out, "v5", &e, &v5_to_json(&p5));
+        }
+        for pv in [mqtt_proto::Protocol::V310, mqtt_proto::Protocol::V311] {
+            let mut c3 = v3::Connect::new(Arc::new("c".repeat(65535)), 10);
+            c3.protocol = pv;
+            c3.username = Some(Arc::new("u".repeat(65535)));
+            c3.password = Some(bytes::Bytes::from(vec![7u8; 65535]));
+            c3.last_will = Some(v3::LastWill {
+                qos: mqtt_proto::QoS::Level1,
+                retain: false,
+                topic_name: mqtt_proto::TopicName::try_from("t".repeat(65535)).unwrap(),
+                message: bytes::Bytes::from(vec![8u8; 65535]),
+            });
+            let p3 = v3::Packet::Connect(c3);
+            if let Some(e) = enc::<V3>(&p3).1 {
+                cross_event(out, "v3", &e, &v3_to_json(&p3));
+            }
+        }
+    }
     // protocol name / level table: every level with correct and corrupted names, both families, all front-ends
     // incl. a correct name followed by a byte that looks like a level (a reader that clamps or truncates the name
     // would take that byte as the level), and proper prefixes of the correct names
@@ -686,6 +715,9 @@ pub fn record_cross(out: &mut Out, tier: &str, seed: u64) {
                               "xxxxxxxxx😀😀".as_bytes(), "ééééééééééééééééé".as_bytes(), "MQIsdp€€€€€€€€".as_bytes(),
                               b"MQIsdp\x03", b"MQIsdp\x04", b"MQIsdp\x05", b"MQTT\x03", b"MQTT\x04", b"MQTT\x05",
                               b"MQT", b"MQIsd", b"MQTTMQTT"];
+    // ... and names that differ from a correct one only by NUL bytes (a name compared as an integer, a C string)
+    let names2: [&[u8]; 7] = [b"\0MQTT", b"\0\0MQTT", b"\0\0\0\0MQTT", b"\0MQIsdp", b"\0\0MQIsdp", b"MQTT\0", b"MQIsdp\0"];
+    let names: Vec<&[u8]> = names.iter().copied().chain(names2.iter().copied()).collect();
     for nm in names {
         for level in 0..=255u8 {
             let mut body = crate::topic::field(nm);
